@@ -56,6 +56,9 @@ func runHUScript(ops []string, ret string) *huScript {
 				err = grpc.SendHeader(ctx, scriptMD(id))
 			case "settlr":
 				err = grpc.SetTrailer(ctx, scriptMD(id))
+			case "sethdrx":
+				// header metadata under the name the protocol itself uses for the status of a unary reply
+				err = grpc.SetHeader(ctx, metadata.Pairs("x-grpc-status", strconv.Itoa(id)+":spoof"))
 			}
 			if err != nil {
 				sc.results = append(sc.results, "plain") // (grpc wraps the failure in its own status: only ok/failed is compared)
@@ -104,6 +107,9 @@ func genHUScript(rng *Rng) ([]string, string) {
 		default:
 			ops = append(ops, "settlr:"+id)
 		}
+		if rng.Chance(6) {
+			ops = append(ops, "sethdrx:"+strconv.Itoa([]int{0, 5, 7, 99}[rng.Intn(4)]))
+		}
 	}
 	rets := []string{"resp:7:1", "resp:7:1", "resp:0:1", "resp:8:0", "err:plain", "err:ctx:canceled", "err:ctx:deadline", "err:status:0",
 		"err:status:" + strconv.Itoa(1+rng.Intn(16)), "err:status:" + strconv.Itoa(17+rng.Intn(80))}
@@ -120,10 +126,13 @@ func huSuite(r *Run, prop string) {
 		r.Count("transport:http-unary")
 		desc, line := sc.desc(), sc.line()
 		var okH, tl []string
+		spoofed := false
 		for j, op := range sc.ops {
 			k := strings.Index(op, ":")
 			if op[:k] == "settlr" {
 				tl = append(tl, op[k+1:])
+			} else if op[:k] == "sethdrx" {
+				spoofed = spoofed || (j < len(sc.results) && sc.results[j] == "ok")
 			} else if j < len(sc.results) && sc.results[j] == "ok" {
 				okH = append(okH, op[k+1:])
 			}
@@ -134,7 +143,14 @@ func huSuite(r *Run, prop string) {
 			if sc.hdr != strings.Join(okH, "+") || sc.tlr != strings.Join(tl, "+") {
 				r.Violate("http-unary/metadata-targets-differ", "response headers and trailers arrive complete, unaltered … on success and on failure alike", sprintf("handler set headers [%s] trailers [%s]; the caller's targets hold [%s] / [%s] (outcome %s)", strings.Join(okH, "+"), strings.Join(tl, "+"), sc.hdr, sc.tlr, sc.client), desc, line)
 			}
-		case "C02":
+		case "C02", "C14":
+			if spoofed && strings.HasPrefix(ret, "resp:") {
+				// (a genuine defect, recorded: the check for it has its own signature so that it cannot mask anything else)
+				if strings.HasPrefix(sc.client, "status:") {
+					r.Violate("http-unary/handler-metadata-spoofs-status", "the outcome reported to the client equals the status the server handler returned", sprintf("handler returned %s after setting header metadata under x-grpc-status; Invoke reported %s", ret, sc.client), desc, line)
+				}
+				break
+			}
 			want := map[string]string{"err:plain": "status:2", "err:ctx:canceled": "status:1", "err:ctx:deadline": "status:4", "err:status:0": "status:13", "resp:7:1": "msg:7", "resp:0:1": "msg:0"}[ret]
 			if want == "" && strings.HasPrefix(ret, "err:status:") {
 				want = "status:" + strings.TrimPrefix(ret, "err:status:")
